@@ -4,8 +4,10 @@
    [dump_raw] is the transcription of CPython 3.12 ast.dump (default options) on raw nodes
    (all fields of cls._fields, possibly missing, None-valued optional ones, plus non-field attributes);
    [erase] keeps exactly the structure: fields that are present and not None-by-default, no attributes;
-   [dump] is the same printer on structures; [hash] = md5 of the dump, [None] where the Python raises
-   ValueError (a code point above 255 in the dump).  Text is a list of code points.
+   [dump] is the same printer on structures; [hash] = md5 of the UTF-8 encoding of the dump ([utf8_injective]), [None]
+   where the Python raises UnicodeEncodeError (a lone surrogate in the dump text, which CPython's repr never leaves
+   unescaped; [hash_defined_iff]).  Before fix F47 the bytes were [map ord] of the text and every code point above
+   255 - any non-Latin-1 character of a string constant - raised ValueError.  Text is a list of code points.
    [printable] (Unicode printability of code points >= 128) and [md5] are universally quantified.
 
    Full statement of the property and where each half is:
@@ -17,7 +19,7 @@
      sensitivity to single edits                edit_* (instances of dump_injective) *)
 From FA.Base Require Import Names.
 From FA.Model Require Import GTree Hash.
-From FA.Proofs Require Import HashLex HashProofs.
+From FA.Proofs Require Import HashLex HashUtf8 HashProofs.
 Local Open Scope N_scope.
 Local Open Scope string_scope.
 Local Open Scope list_scope.
@@ -53,10 +55,22 @@ Print Assumptions hash_complete.
 
 Theorem hash_sound_if : forall printable md5 a b h,
   wf (erase a) = true -> wf (erase b) = true ->
-  (md5 (dump_raw printable a) = md5 (dump_raw printable b) -> dump_raw printable a = dump_raw printable b) ->
+  (md5 (utf8 (dump_raw printable a)) = md5 (utf8 (dump_raw printable b)) ->
+   utf8 (dump_raw printable a) = utf8 (dump_raw printable b)) ->
   hash printable md5 a = Some h -> hash printable md5 b = Some h -> erase a = erase b.
 Proof. exact HashProofs.hash_sound_if. Qed.
 Print Assumptions hash_sound_if.
+
+(* the bytes that are hashed determine the text (all lists of numbers, code points or not) *)
+Theorem utf8_injective : forall t u, utf8 t = utf8 u -> t = u.
+Proof. exact HashUtf8.utf8_inj. Qed.
+Print Assumptions utf8_injective.
+
+(* the hash is defined exactly when every code point of the dump can be encoded (no lone surrogate) *)
+Theorem hash_defined_iff : forall printable md5 a,
+  (exists h, hash printable md5 a = Some h) <-> forallb encodable (dump_raw printable a) = true.
+Proof. exact HashProofs.hash_defined_iff. Qed.
+Print Assumptions hash_defined_iff.
 
 Theorem hash_ignores_attrs : forall printable md5 r ats,
   hash printable md5 (set_attrs r ats) = hash printable md5 r.
@@ -110,7 +124,7 @@ Print Assumptions edit_nesting.
 Theorem edit_changes_hash_if : forall printable md5 a b h,
   wf a = true -> wf b = true -> a <> b ->
   ghash printable md5 a = Some h -> ghash printable md5 b = Some h ->
-  dump printable a <> dump printable b /\ md5 (dump printable a) = md5 (dump printable b).
+  utf8 (dump printable a) <> utf8 (dump printable b) /\ md5 (utf8 (dump printable a)) = md5 (utf8 (dump printable b)).
 Proof. exact HashProofs.edit_changes_hash_if. Qed.
 Print Assumptions edit_changes_hash_if.
 
@@ -166,9 +180,14 @@ Example sound_if_applies :
             /\ hash pr_all (fun t => t) (query_raw [("_q_metadata", "dict")]) = Some h.
 Proof. eexists. split; vm_compute; reflexivity. Qed.
 
-(* the ValueError branch exists: a printable code point above 255 (here the euro sign) *)
-Example hash_raises : hash pr_all (fun t => t) (RNode "Constant" [("value", false, Some (RAtom (AStr [8364])))] []) = None.
-Proof. vm_compute. reflexivity. Qed.
+(* a printable code point above 255 (here the euro sign, three bytes) is hashed (it raised ValueError before F47); a
+   lone surrogate that a (non-CPython) [printable] lets through unescaped is the one thing that cannot be *)
+Example hash_non_latin1 :
+  hash pr_all (fun t => t) (RNode "Constant" [("value", false, Some (RAtom (AStr [8364])))] [])
+  = Some (tx "Constant(value='" ++ [226; 130; 172] ++ tx "')")
+  /\ hash pr_all (fun t => t) (RNode "Constant" [("value", false, Some (RAtom (AStr [55296])))] []) = None
+  /\ utf8 [65; 233; 8364; 128512] = [65; 195; 169; 226; 130; 172; 240; 159; 152; 128].
+Proof. repeat split; vm_compute; reflexivity. Qed.
 
 (* repr of strings: quotes, escapes, non-printables *)
 Example repr_quotes :
